@@ -91,6 +91,16 @@ func Replay(seed int64, prog Program, steps []Step) *RunResult {
 		}
 	}
 	prog.Shutdown = hasSd
+	// the serve cycles in which the behaviour lets the subscriptions fail
+	cyc := -1
+	for _, st := range steps {
+		switch st.Action {
+		case "SvCas":
+			cyc++
+		case "SvSubFail":
+			prog.FailSubCycles = append(prog.FailSubCycles, cyc)
+		}
+	}
 	sc := NewScenario(tr, prog)
 	out := &RunResult{}
 	sc.Start(0)
@@ -125,14 +135,8 @@ func Replay(seed int64, prog Program, steps []Step) *RunResult {
 			}
 			applied = true
 		case "SvStarted":
-			if _, ok := release("serve", actionGate[st.Action], nil, nil); ok {
-				// let Serve run on (subscribe, reset, listen) past its remaining gate
-				if w := tr.AwaitParked("serve", []string{"sv.started"}, nil, nil, parkWait); w != nil {
-					tr.Release(w)
-				}
-				time.Sleep(200 * time.Microsecond)
-				applied = true
-			}
+			// the state becomes started; Serve parks again before it subscribes (SvSubscribed / SvSubFail)
+			_, applied = release("serve", actionGate[st.Action], nil, nil)
 		case "WkLock":
 			if g, ok := release("worker", actionGate[st.Action], nil, used); ok {
 				bound[st.Proc] = g
